@@ -675,6 +675,9 @@ def r01_13(ctx):
 
 
 def run(ctx):
+    # R01.14 = R06.12: a literal of small magnitude is not folded to zero (the kernel integrates the form as written)
+    import rules.C06 as c06
+    ctx.shared(c06.r06_12, 'R06.12', 'R01.14')
     r01_12(ctx)
     r01_13(ctx)
     # R01.11 = R08.4: after update() / update_params() the kernel integrates the NEW data: every stored array of an updatable input
